@@ -433,7 +433,8 @@ class File(resource.Resource, filepath.FilePath[str]):
         """
         size = self.getFileSize()
         if start is None:
-            start = size - end
+            # A suffix longer than the resource selects all of it.
+            start = max(size - end, 0)
             end = size
         elif end is None:
             end = size
